@@ -150,6 +150,7 @@ def gen_call(rng, o, t, is_cfg, prev=None):
         c["rule"] = {"c": rng.choice(["Any", "All", "AtMost"]), "args": [{"c": "str", "id": x} for x in rng.sample(names, min(2, len(names)))],
                      "id": f"ADD{rng.randint(1, 99)}"}
         if c["rule"]["c"] == "AtMost": c["rule"]["v"] = 1
+        c["prio_after"] = {a: rng.choice([1, -1, 2]) for a in rng.sample(names, min(rng.randint(0, 2), len(names)))}
     return c
 
 
@@ -186,8 +187,20 @@ def do_case(ctx, inp):
             if after != before:
                 ctx.fail("add-changed-an-existing-object", {"step": step, "call": c}); return
             if not isinstance(r, dict):
+                new_ast = {"c": "Stingy", "args": asts[i]["args"] + [c["rule"]], **({"id": t["id"]})}
+                if not leaked[i]:
+                    # the returned object itself (not a copy: a copy drops whatever add() may have carried over from the
+                    # receiver) must answer like a freshly built configurator with the extra rule
+                    fresh = build(new_ast)
+                    for q in ({"k": "ge_polyhedron"}, {"k": "default_prios"}, {"k": "leafs"},
+                              {"k": "select", "prio": c.get("prio_after", {}), "only_leafs": False}):
+                        a1, a2 = safe(lambda: perform(r, q)), safe(lambda: perform(fresh, q))
+                        if a1 != a2:
+                            ctx.fail("result-depends-on-history", {"step": step, "call": c, "then": q, "on_object_returned_by_add": a1,
+                                                                    "fresh_object": a2}); return
+                    ctx.tags["add-result-queried-directly"] += 1
                 live.append(copy.deepcopy(r)); created.append(snap(r)); leaked.append(leaked[i]); named_cid.append(named_cid[i])
-                asts.append({"c": "Stingy", "args": asts[i]["args"] + [c["rule"]], **({"id": t["id"]})})
+                asts.append(new_ast)
             continue
         res = safe(lambda: perform(o, c))
         after = [snap(x) for x in live]
